@@ -154,6 +154,42 @@ def _bvp_case(arg):
     return res.as_dict()
 
 
+def _charge_case(arg):
+    """Densities whose total charge is zero, negative or small: the computed boundary value q / r and the large-r behaviour
+    must follow the sign and size of q (every other analytic case has q = +1)."""
+    kind, seed = arg
+    from grid.poisson import solve_poisson_bvp
+
+    res = WorkerResult(section="bvp:charge")
+    case = {"route": "charge", "kind": kind}
+    g, tf = atomic_grid(7, rotate=5)
+    c1, c2 = CENTRE + DISPLACEMENTS["z"], CENTRE - DISPLACEMENTS["z"]
+    terms = {"neutral": [(1.0, c1, 1.0), (-1.0, c2, 1.5)], "negative": [(-1.0, c1, 1.0), (-0.5, CENTRE, 2.0)],
+             "small": [(1.0, c1, 1.0), (-0.97, c2, 1.0)]}[kind]
+    rho = sum(q * rho_gauss(g.points, c, a) for q, c, a in terms)
+    pts = eval_points(seed)
+    ref = sum(q * v_gauss(pts, c, a) for q, c, a in terms)
+    res.count(len(pts))
+    np.random.seed(seed)
+    try:
+        with warnings.catch_warnings():
+            warnings.simplefilter("ignore")
+            with np.errstate(all="ignore"):
+                got = np.asarray(solve_poisson_bvp(g, rho, tf)(pts), dtype=float)
+    except Exception as exc:
+        res.violation(f"bvp:charge:{kind}:raised:{type(exc).__name__}", f"{case}: {type(exc).__name__}: {exc}", case)
+        return res.as_dict()
+    res.nontrivial(n=len(pts))
+    err = np.abs(got - ref)
+    if np.any(~np.isfinite(got)) or _gt(err.max(), TOL_BVP):
+        i = int(np.nanargmax(err))
+        res.violation(f"bvp:charge:{kind}:potential-differs-from-analytic", f"{case}: V at {np.round(pts[i] - CENTRE, 3).tolist()} = {got[i]!r}, "
+                      f"analytic {ref[i]!r} (error {err[i]:.2e} > {TOL_BVP})", case)
+    else:
+        res.maximum(f"bvp_err:charge:{kind}", float(err.max()))
+    return res.as_dict()
+
+
 def _linearity_case(arg):
     degree, seed = arg
     from grid.poisson import solve_poisson_bvp
@@ -508,6 +544,8 @@ def run(ctx):
     if ctx.thorough:
         jobs.append(("bvp", (7, "xy", 1.0, tuple(opts[0]) + ("pruned",), ctx.seed)))
     jobs.append(("bvp", (7, "centred", 1.0, tuple(opts[0]) + ("pruned",), ctx.seed)))
+    for kind in ("neutral", "negative") + (("small",) if ctx.thorough else ()):
+        jobs.append(("chg", (kind, ctx.seed)))
     jobs.append(("lin", (7, ctx.seed)))
     if ctx.thorough:
         jobs.append(("lin", (15, ctx.seed)))
@@ -533,7 +571,7 @@ def run(ctx):
     jobs += [("mol", (10.0, ctx.seed, 1e-3)), ("mol", (4.0, ctx.seed, 1e-3))]
     if ctx.thorough:
         jobs += [("mol", (1.4, ctx.seed)), ("mol", (1.4, ctx.seed, 1e-3)), ("mol", (2.5, ctx.seed, 1e-3))]
-    jobs.sort(key=lambda j: {"ivpv": 1, "mol": 0, "bvp": 1 if j[1][0] == 15 else 3, "lin": 1, "ivp": 2, "lap": 3, "rob": 4, "rob2": 2}[j[0]])
+    jobs.sort(key=lambda j: {"chg": 2, "ivpv": 1, "mol": 0, "bvp": 1 if j[1][0] == 15 else 3, "lin": 1, "ivp": 2, "lap": 3, "rob": 4, "rob2": 2}[j[0]])
     for res in lattice.pmap_unordered(_dispatch, jobs, ctx.workers):
         if len(ctx.samples) > 8:
             res["samples"] = []
@@ -546,7 +584,7 @@ def run(ctx):
 def _dispatch(job):
     kind, arg = job
     return {"bvp": _bvp_case, "lin": _linearity_case, "ivp": _ivp_case, "lap": _laplacian_case, "rob": _robust_case,
-            "mol": _mol_case, "rob2": _robust2_case, "ivpv": _ivp_variant_case}[kind](arg)
+            "mol": _mol_case, "rob2": _robust2_case, "ivpv": _ivp_variant_case, "chg": _charge_case}[kind](arg)
 
 
 def replay(ctx, case):
@@ -555,6 +593,8 @@ def replay(ctx, case):
         ctx.merge(_bvp_case((case["degree"], case["displacement"], case["alpha"], tuple(case["options"]), ctx.seed)))
     elif r == "linearity":
         ctx.merge(_linearity_case((case["degree"], ctx.seed)))
+    elif r == "charge":
+        ctx.merge(_charge_case((case["kind"], ctx.seed)))
     elif r == "ivp-variant":
         ctx.merge(_ivp_variant_case((case["variant"], ctx.seed)))
     elif r == "ivp":
